@@ -9,6 +9,7 @@ import HkModel.Drive.Mcp
 import HkModel.Drive.Limits
 import HkModel.Drive.Fidelity
 import HkModel.Drive.Reload
+import HkModel.Drive.Publish
 /-! `hkdriver <mode>`: reads protocol lines on stdin, answers one line per input line. -/
 open Hk
 
@@ -58,6 +59,7 @@ def main (args : List String) : IO UInt32 := do
   | ["limits"] => runPure DriveLimits.processLine
   | ["fidelity"] => runPure DriveFidelity.processLine
   | ["reload"] => runPure DriveReload.processLine
+  | ["publish"] => runPure DrivePublish.processLine
   | ["auth"] =>
     let st ← loopAuth stdin stdout {}
     stdout.putStrLn ("SUMMARY {\"steps\":" ++ toString st.n ++ ",\"not_ok\":" ++ toString st.bad ++ "}")
